@@ -83,7 +83,7 @@ def _exists(f):
     return os.path.exists(os.path.join(vlib.COQ, "theories", f)) or os.path.exists(os.path.join(vlib.COQ, "gen", f))
 def c10(tier):
     vlib.standard(
-        "C10", tier, "c10", ["Properties_C10.v", "Proofs_Expr.v", "Proofs_BoolSimp.v", "Proofs_Rewrites.v"],
+        "C10", tier, "c10", ["Properties_C10.v", "Proofs_Expr.v", "Proofs_BoolSimp.v", "Proofs_Rewrites.v", "Proofs_Stmt.v"],
         assume=[
             "integers are unbounded (Z): the property allows integer reasoning to assume no overflow; the differential oracle keeps unsigned operands away from wrap-around",
             "float64 is modelled as NaN | +-Inf | rational: ordering and NaN behaviour are exact, rounding is not modelled (every model witness is replayed on compiled Go by the oracle)",
@@ -102,7 +102,7 @@ def c12(tier):
         assume=[
             "same expression semantics as C10 (Z integers, NaN/Inf/rational floats, opaque calls as deterministic functions of the call history)",
             "type switches: the dynamic content of the interface value is nil or a value of a concrete type; types.Implements enters as a table whose transitivity is re-checked in Coq for every generated lattice",
-            "named constants and the nilValReturn / dupArg checkers are outside the modelled fragment (monitored by nothing in this check)",
+            "named constants are outside the modelled fragment; nilValReturn is tied on []int operands with the if/return shape passed as data; dupArg on the four modelled library functions",
         ],
         trusted=["converter go/ast+go/types -> Model_Expr terms; type-switch entries + types.Implements table -> Model_Claims terms",
                  "go/types (constant values, Implements), ruleguard/gogrep engine for sloppyLen and offBy1: modelled, not verified",
